@@ -1,6 +1,7 @@
 import AsyncFix.Lemmas.RestartKill
 import AsyncFix.Lemmas.RestartSeg
 import AsyncFix.Lemmas.RestartQuiet
+import AsyncFix.Lemmas.RestartInboundC
 
 /-!
 # C09 – restarting an endpoint is transparent to the session
@@ -163,6 +164,60 @@ theorem send_crash_states (env : Env) (c : Conn) (m : Msg) (hnew : ownSeq m = fa
 
 /-- non-vacuity: an application message takes a new number -/
 example : ownSeq (Msg.mk' "D" [(11, "id1"), (58, "text")]) = false := by decide
+
+/-! ## 3. a kill inside inbound processing: counted ⇒ delivered and journaled; otherwise still expected -/
+
+/-- For EVERY crash point `k` of the processing of an application frame `m` (any state, any frame content,
+exceptions included): after the restart either
+* the frame is NOT counted – the new object expects the same number as the old one did before the frame,
+  and the inbound rows of the journal are what they were (the frame will be asked for / sent again), or
+* it IS counted – then it carries exactly the number the old object expected, it is in the journal under
+  that number, the new object expects the next number, and `on_message(m)` had been called before the kill.
+Never counted-but-undelivered. -/
+theorem restart_inbound (k : Nat) (sr : Msg → Bool) (env : Env) (m : Msg) (happ : isApp m = true)
+    (c : Conn) (hs : InExact c) (role : Nat) :
+    ((restart (recvKilled k sr env c m).1 role).sess.nextIn = c.sess.nextIn ∧
+      (recvKilled k sr env c m).1.journal.inb = c.journal.inb) ∨
+    (seqOf m = some c.sess.nextIn ∧
+      (restart (recvKilled k sr env c m).1 role).sess.nextIn = c.sess.nextIn + 1 ∧
+      (recvKilled k sr env c m).1.journal.inb.find c.sess.nextIn = some m ∧
+      Effect.deliver m ∈ (recvKilled k sr env c m).2) := by
+  have hconn : (recvKilled k sr env c m).1 = (recvPrefix k sr env m c).conn := by
+    show ((recvPrefix k sr env m).run c).1 = _
+    unfold M.run; split <;> simp_all
+  have heff : ∀ x, x ∈ (recvPrefix k sr env m c).eff → x ∈ (recvKilled k sr env c m).2 := by
+    intro x hx
+    show x ∈ ((recvPrefix k sr env m).run c).2
+    unfold M.run; split <;> simp_all
+  rw [hconn]
+  rcases recv_crash_app k sr env m happ c with ⟨h1, h2⟩ | ⟨hq, h1, h2, h3⟩
+  · left
+    refine ⟨?_, h2⟩
+    show (recvPrefix k sr env m c).conn.journal.inSeq + 1 = c.sess.nextIn
+    rw [h1]; exact hs
+  · right
+    refine ⟨hq, ?_, h2, heff _ h3⟩
+    show (recvPrefix k sr env m c).conn.journal.inSeq + 1 = c.sess.nextIn + 1
+    rw [h1]
+
+/-- never counted-but-undelivered -/
+theorem counted_implies_delivered (k : Nat) (sr : Msg → Bool) (env : Env) (m : Msg) (happ : isApp m = true)
+    (c : Conn) (hs : InExact c) (role : Nat)
+    (h : (restart (recvKilled k sr env c m).1 role).sess.nextIn ≠ c.sess.nextIn) :
+    Effect.deliver m ∈ (recvKilled k sr env c m).2 := by
+  rcases restart_inbound k sr env m happ c hs role with ⟨h1, _⟩ | ⟨_, _, _, h4⟩
+  · exact absurd h1 h
+  · exact h4
+
+/-- FULL statement (false: D15, inherent – callback and commit are not atomic): delivered ⇒ counted, i.e.
+exactly-once across a kill.  Refuted in `Findings/C09.lean` with the kill between callback and journal. -/
+def exactly_once_full : Prop :=
+  ∀ (k : Nat) (sr : Msg → Bool) (env : Env) (m : Msg) (c : Conn) (role : Nat),
+    isApp m = true → InExact c → Effect.deliver m ∈ (recvKilled k sr env c m).2 →
+    (restart (recvKilled k sr env c m).1 role).sess.nextIn = c.sess.nextIn + 1
+
+/-- non-vacuity -/
+example : isApp (Msg.ofFields [(8, "FIX.4.4"), (35, "D"), (34, "5")]) = true := by decide
 
 /-! ## 4. a restart at a quiescent point only loses the volatile fields -/
 
